@@ -105,6 +105,17 @@ theorem itemsOK_of_resolved {s : Spec} (wf : SpecWF s) {its : List (ItemRef × S
       rw [← this]
       exact viewNucs_length o i.rev
 
+theorem lenOf_mono {s s' : Spec} (h : ∀ n p, s.findSeq n = some p → s'.findSeq n = some p) {i : ItemRef}
+    (hi : (s.findSeq i.name).isSome = true) : lenOf s' i = lenOf s i := by
+  obtain ⟨o, ho⟩ := Option.isSome_iff_exists.1 hi
+  unfold lenOf; rw [ho, h _ _ ho]
+
+theorem equalLen_mono {s s' : Spec} (h : ∀ n p, s.findSeq n = some p → s'.findSeq n = some p)
+    {its : List ItemRef} (hres : ∀ i ∈ its, (s.findSeq i.name).isSome = true)
+    (hl : its ≠ [] ∧ ∀ i ∈ its, ∀ j ∈ its, lenOf s i = lenOf s j) :
+    its ≠ [] ∧ ∀ i ∈ its, ∀ j ∈ its, lenOf s' i = lenOf s' j :=
+  ⟨hl.1, fun i hi j hj => by rw [lenOf_mono h (hres i hi), lenOf_mono h (hres j hj)]; exact hl.2 i hi j hj⟩
+
 theorem wf_addSeq {s : Spec} (wf : SpecWF s) (o : SeqObj) (hfresh : s.findSeq o.name = none)
     (hlen : (viewNucs o false).length = o.len)
     (hbase : o.isSup = false → o.template.length = o.len ∧ viewNucs o false = fwd o.name o.len)
@@ -182,6 +193,10 @@ theorem wf_addSeq {s : Spec} (wf : SpecWF s) (o : SeqObj) (hfresh : s.findSeq o.
     intro e
     have := List.find?_eq_none.1 hfresh o' ho'
     simp [e] at this
+  · exact wf.strandNames
+  · exact wf.bondsLt
+  · intro its hits
+    exact equalLen_mono mono (wf.equal its hits) (wf.equalLen its hits)
   · exact hsupE
 
 theorem wf_addStrand {s : Spec} (wf : SpecWF s) (o : StrandObj) (hfresh : s.findStrand o.name = none)
@@ -246,11 +261,25 @@ theorem wf_addStrand {s : Spec} (wf : SpecWF s) (o : StrandObj) (hfresh : s.find
     rw [this]
   · exact wf.equal
   · exact wf.seqNames
+  · show ((s.strands ++ [o]).map (·.name)).Nodup
+    rw [List.map_append]
+    refine List.nodup_append.2 ⟨wf.strandNames, by simp, ?_⟩
+    intro a ha b hb
+    simp at hb
+    subst hb
+    obtain ⟨o', ho', rfl⟩ := List.mem_map.1 ha
+    intro e
+    have := List.find?_eq_none.1 hfresh o' ho'
+    simp [e] at this
+  · exact wf.bondsLt
+  · intro its hits
+    exact equalLen_mono same (wf.equal its hits) (wf.equalLen its hits)
   · exact wf.supEarlier
 
 theorem wf_addStruct {s : Spec} (wf : SpecWF s) (so : StructObj)
     (hres : ∀ n ∈ so.strands, (s.findStrand n).isSome = true) (hb : getBonds so.struct = .ok so.bonds)
-    (hlen : so.len = ((structStrands s so).map (fun q => q.2.len)).sum) :
+    (hlen : so.len = ((structStrands s so).map (fun q => q.2.len)).sum)
+    (hbl : ∀ b ∈ so.bonds, b.1 < so.len ∧ b.2 < so.len) :
     SpecWF { s with structs := s.structs ++ [so] } := by
   have same : ∀ n p, s.findSeq n = some p → ({ s with structs := s.structs ++ [so] } : Spec).findSeq n = some p :=
     fun _ _ h => h
@@ -272,10 +301,18 @@ theorem wf_addStruct {s : Spec} (wf : SpecWF s) (so : StructObj)
     · simp at h; subst h; exact hlen
   · exact wf.equal
   · exact wf.seqNames
+  · exact wf.strandNames
+  · intro so' hso'
+    rcases List.mem_append.1 hso' with h | h
+    · exact wf.bondsLt so' h
+    · simp at h; subst h; exact hbl
+  · intro its hits
+    exact equalLen_mono same (wf.equal its hits) (wf.equalLen its hits)
   · exact wf.supEarlier
 
 theorem wf_addEqual {s : Spec} (wf : SpecWF s) (its : List ItemRef)
-    (hres : ∀ i ∈ its, (s.findSeq i.name).isSome = true) :
+    (hres : ∀ i ∈ its, (s.findSeq i.name).isSome = true)
+    (hel : its ≠ [] ∧ ∀ i ∈ its, ∀ j ∈ its, lenOf s i = lenOf s j) :
     SpecWF { s with equals := s.equals ++ [its] } := by
   have same : ∀ n p, s.findSeq n = some p → ({ s with equals := s.equals ++ [its] } : Spec).findSeq n = some p :=
     fun _ _ h => h
@@ -294,6 +331,12 @@ theorem wf_addEqual {s : Spec} (wf : SpecWF s) (its : List ItemRef)
     · exact wf.equal its' h
     · simp at h; subst h; exact hres
   · exact wf.seqNames
+  · exact wf.strandNames
+  · exact wf.bondsLt
+  · intro its' hits'
+    rcases List.mem_append.1 hits' with h | h
+    · exact equalLen_mono same (wf.equal its' h) (wf.equalLen its' h)
+    · simp at h; subst h; exact hel
   · exact wf.supEarlier
 
 theorem specWF_empty : SpecWF {} := by
@@ -309,6 +352,9 @@ theorem specWF_empty : SpecWF {} := by
   · intro _ h; simp at h
   · intro _ h; simp at h
   · simp
+  · simp
+  · intro _ h; simp at h
+  · intro _ h; simp at h
   · intro i o h; simp at h
 
 theorem mapM_except_ok {α β ε : Type} (f : α → Except ε β) (l : List α) {bs : List β} (h : l.mapM f = .ok bs) :
@@ -334,6 +380,111 @@ theorem isSome_false_eq_none {α : Type} {o : Option α} (h : ¬ o.isSome = true
   cases o with
   | none => rfl
   | some a => simp at h
+
+/-- number of positions of a dot-paren string (`+` does not count) -/
+def nonplus (s : List Char) : Nat := (s.filter (· != '+')).length
+
+theorem splitPlus_spec (s : List Char) :
+    splitPlus s ≠ [] ∧ ((splitPlus s).map List.length).sum = nonplus s := by
+  induction s with
+  | nil => simp [splitPlus, nonplus]
+  | cons d r ih =>
+    obtain ⟨hne, hsum⟩ := ih
+    unfold splitPlus
+    cases hsp : splitPlus r with
+    | nil => exact absurd hsp hne
+    | cons h t =>
+      rw [hsp] at hsum
+      simp only
+      by_cases hd : (d == '+') = true
+      · simp only [hd, if_true]
+        refine ⟨by simp, ?_⟩
+        have : d = '+' := by simpa using hd
+        subst this
+        simpa [nonplus] using hsum
+      · simp only [hd, Bool.false_eq_true, if_false]
+        refine ⟨by simp, ?_⟩
+        have hd' : (d != '+') = true := by simpa using hd
+        simp only [List.map_cons, List.sum_cons, List.length_cons] at hsum ⊢
+        unfold nonplus at hsum ⊢
+        have : (List.filter (fun x => x != '+') (d :: r)) = d :: List.filter (fun x => x != '+') r := by
+          simp [List.filter_cons, hd']
+        rw [this]
+        simp only [List.length_cons]
+        omega
+
+theorem zip_all_len (objs : List StrandObj) (subs : List (List Char)) (hl : subs.length = objs.length)
+    (h : (objs.zip subs).all (fun x => x.1.len == x.2.length) = true) :
+    (objs.map (fun x => x.len)).sum = (subs.map List.length).sum := by
+  induction objs generalizing subs with
+  | nil => cases subs with
+    | nil => rfl
+    | cons a t => simp at hl
+  | cons o objs ih =>
+    cases subs with
+    | nil => simp at hl
+    | cons a t =>
+      simp only [List.zip_cons_cons, List.all_cons, Bool.and_eq_true, beq_iff_eq] at h
+      simp only [List.length_cons, Nat.add_right_cancel_iff] at hl
+      simp only [List.map_cons, List.sum_cons, h.1, ih t hl h.2]
+
+theorem getBondsAux_bound (s : List Char) (pos : Nat) (stk : List Nat) (acc bs : List (Nat × Nat))
+    (h : getBondsAux s pos stk acc = .ok bs) (hacc : ∀ b ∈ acc, b.1 < pos ∧ b.2 < pos) (hstk : ∀ o ∈ stk, o < pos) :
+    ∀ b ∈ bs, b.1 < pos + nonplus s ∧ b.2 < pos + nonplus s := by
+  induction s generalizing pos stk acc with
+  | nil =>
+    simp [getBondsAux] at h
+    subst h
+    intro b hb
+    simpa [nonplus] using hacc b (List.mem_reverse.1 hb)
+  | cons c r ih =>
+    unfold getBondsAux at h
+    split at h
+    · cases ‹(c :: r) = []›
+    · rename_i r' pos' stk' acc' heq
+      cases heq
+      have := ih _ _ _ h hacc hstk
+      simpa [nonplus] using this
+    · rename_i r' pos' stk' acc' heq
+      cases heq
+      have := ih _ _ _ h (fun b hb => ⟨Nat.lt_succ_of_lt (hacc b hb).1, Nat.lt_succ_of_lt (hacc b hb).2⟩)
+        (fun o ho => by
+          rcases List.mem_cons.1 ho with rfl | ho
+          · exact Nat.lt_succ_self _
+          · exact Nat.lt_succ_of_lt (hstk o ho))
+      intro b hb
+      have := this b hb
+      simp only [nonplus] at this ⊢
+      rw [List.filter_cons_of_pos (by decide)]
+      simp only [List.length_cons]
+      omega
+    · rename_i r' pos' stk' acc' heq
+      cases heq
+      split at h
+      · cases h
+      · rename_i o stk''
+        have := ih _ _ _ h (fun b hb => by
+            rcases List.mem_cons.1 hb with rfl | hb
+            · exact ⟨Nat.lt_succ_of_lt (hstk o List.mem_cons_self), Nat.lt_succ_self _⟩
+            · exact ⟨Nat.lt_succ_of_lt (hacc b hb).1, Nat.lt_succ_of_lt (hacc b hb).2⟩)
+          (fun o' ho' => Nat.lt_succ_of_lt (hstk o' (List.mem_cons_of_mem _ ho')))
+        intro b hb
+        have := this b hb
+        simp only [nonplus] at this ⊢
+        rw [List.filter_cons_of_pos (by decide)]
+        simp only [List.length_cons]
+        omega
+    · rename_i r' pos' stk' acc' heq
+      cases heq
+      have := ih _ _ _ h (fun b hb => ⟨Nat.lt_succ_of_lt (hacc b hb).1, Nat.lt_succ_of_lt (hacc b hb).2⟩)
+        (fun o ho => Nat.lt_succ_of_lt (hstk o ho))
+      intro b hb
+      have := this b hb
+      simp only [nonplus] at this ⊢
+      rw [List.filter_cons_of_pos (by decide)]
+      simp only [List.length_cons]
+      omega
+    · cases h
 
 /-- the strands a structure statement resolved are the ones `struct.strands` yields later -/
 theorem structStrands_objs {s : Spec} {name : String} {params : Option String} {strands : List String}
@@ -429,9 +580,11 @@ theorem add_wf {tbl : CodeTable} {s s' : Spec} (wf : SpecWF s) (st : Stmt) (h : 
           · rename_i bonds hb
             split at h
             · cases h
-            · split at h
+            · rename_i hcount
+              split at h
               · cases h
-              · cases h
+              · rename_i hzip
+                cases h
                 apply wf_addStruct wf
                 · intro n hn
                   obtain ⟨b, hb'⟩ := mapM_except_ok _ _ hm n hn
@@ -442,6 +595,13 @@ theorem add_wf {tbl : CodeTable} {s s' : Spec} (wf : SpecWF s) (st : Stmt) (h : 
                 · exact hb
                 · simp only
                   rw [structStrands_objs hm]
+                · simp only
+                  have hlenEq : (splitPlus struct).length = objs.length := by simpa using hcount
+                  have hall : (objs.zip (splitPlus struct)).all (fun x => x.1.len == x.2.length) = true := by
+                    simpa using hzip
+                  rw [zip_all_len objs _ hlenEq hall, (splitPlus_spec struct).2]
+                  have := getBondsAux_bound struct 0 [] [] bonds hb (by simp) (by simp)
+                  simpa using this
   | equal items =>
     simp only [Spec.add, bind, Except.bind, pure, Except.pure, throw, throwThe, MonadExceptOf.throw] at h
     cases hr : resolveItems s items with
@@ -454,11 +614,29 @@ theorem add_wf {tbl : CodeTable} {s s' : Spec} (wf : SpecWF s) (st : Stmt) (h : 
         simp only at h
         split at h
         · cases h
-        · cases h
+        · rename_i hall
+          cases h
+          have hres := resolveItems_ok hr
+          have hlenAll : ∀ q ∈ p :: its, lenOf s q.1 = p.2.len := by
+            intro q hq
+            have h1 : q.2.len = p.2.len := by
+              have hall' : (List.all (p :: its) fun x => x.2.len == p.2.len) = true := by
+                cases hb : (List.all (p :: its) fun x => x.2.len == p.2.len) with
+                | true => rfl
+                | false => simp [hb] at hall
+              have := List.all_eq_true.1 hall' q hq
+              simpa using this
+            unfold lenOf
+            rw [hres q hq]; exact h1
           apply wf_addEqual wf
-          intro i hi
-          obtain ⟨q, hq, rfl⟩ := List.mem_map.1 hi
-          rw [resolveItems_ok hr q hq]; rfl
+          · intro i hi
+            obtain ⟨q, hq, rfl⟩ := List.mem_map.1 hi
+            rw [hres q hq]; rfl
+          · refine ⟨by simp, ?_⟩
+            intro i hi j hj
+            obtain ⟨q, hq, rfl⟩ := List.mem_map.1 hi
+            obtain ⟨q', hq', rfl⟩ := List.mem_map.1 hj
+            rw [hlenAll q hq, hlenAll q' hq']
   | kinetic =>
     simp only [Spec.add, pure, Except.pure, Except.ok.injEq] at h
     subst h; exact wf
